@@ -44,7 +44,7 @@ def spec(tier):
 
 def spec_inmem(tier):
     cap = 300 if tier == "quick" else 2700
-    names = ["c15_fg_insert_all_p", "c15_fg_insert_all_o", "c15_fg_insert_all_s", "c15_lg_insert_all", "c15_ld_insert_all"]
+    names = ["c15_fg_insert_all_p", "c15_fg_insert_all_o", "c15_fg_insert_all_s", "c15_lg_insert_all", "c15_ld_insert_all", "c15_lg_remove_all", "c15_ld_remove_all"]
     if tier == "thorough":
         names += ["c15_fd_insert_all_o", "c15_fd_insert_all_pg"]
     US = [(r"Iterator>::any::<", 3, "loops?"), (r"__ordset::cmp::<", 5, "loops?")]
@@ -58,18 +58,52 @@ def spec_inmem(tier):
         encoded=["MutableGraph::insert_all / MutableDataset::insert_all as seen through Generic{Fast,Light}{Graph,Dataset} (default method or override)",
                  "sophia_inmem insert paths and secondary indexes after a faulted bulk insertion"],
         bounds=["2 symbolic triples/quads, source fault index in 0..=2, refused term code symbolic (index full)", "ordered-set model capacity 2"],
-        outside=["remove_all / remove_matching / retain_matching on the real stores"],
+        outside=["remove_matching / retain_matching on the real stores"],
         assumptions=["std BTreeSet replaced by an ordered-set model", "VT/VTI harness term and term-index types"],
+    )
+
+
+def spec_rio(tier):
+    cap = 300 if tier == "quick" else 2700
+    hs = [Harness(n, unwind=6, timeout=cap, mem_gb=14,
+                  note="harness rio_api parser (<=3 statements, symbolic chunk size and fault position) behind the Strict Rio adapter; symbolic callback fault") for n in ("c15_rio_triples", "c15_rio_quads")]
+    return kprop.KSpec(
+        package="sophia_rio", crate_dir="rio",
+        harness_files={"rio": [os.path.join(H, "rio", "c15_rio.rs")]},
+        harnesses=hs, jobs=2,
+        encoded=["sophia_rio::parser::{StrictRioTripleSource, StrictRioQuadSource}::try_for_some_item, RioStreamError conversions"],
+        bounds=["<=3 statements, 1..=3 statements per parse_step, parser fault index in 0..=3, callback fault call index in 0..=4, step-wise and whole-stream driving"],
+        outside=["GeneralizedRioSource (same code shape)", "the real Rio parsers as the wrapped parser"],
+        assumptions=["harness parser implementing rio_api::parser::{TriplesParser,QuadsParser} per the trait contract"],
+    )
+
+
+def spec_turtle(tier):
+    cap = 300 if tier == "quick" else 2700
+    hs = [Harness("c15_nt_serializer_faults", unwind=5,
+                  unwindset=[(r"BW as std::io::Write>::write$", 4, "loops?"), (r"c15_nt_ser::c15_nt_serializer_faults$", 28, "loops")],
+                  timeout=cap, mem_gb=14, note="NtSerializer::serialize_triples of <=2 lean triples into a writer with a symbolic byte budget, symbolic source fault")]
+    return kprop.KSpec(
+        package="sophia_turtle", crate_dir="turtle",
+        harness_files={"turtle": [os.path.join(H, "turtle", "c15_nt_ser.rs")]},
+        harnesses=hs, jobs=2,
+        encoded=["sophia_turtle::serializer::nt::NtSerializer::serialize_triples (+ write_triple/write_term IRI arm) as the consumer of a stream"],
+        bounds=["<=2 triples of 1-byte IRIs, source fault index in 0..=2, writer byte budget in 0..=27"],
+        outside=["NqSerializer, Turtle/TriG serializers as consumers; io::Error kinds other than the harness writer's"],
+        assumptions=["array-backed io::Write with a byte budget"],
     )
 
 
 def run(ctx):
     kprop.run(ctx, spec(ctx.tier))
     kprop.run(ctx, spec_inmem(ctx.tier))
+    kprop.run(ctx, spec_rio(ctx.tier))
+    kprop.run(ctx, spec_turtle(ctx.tier))
 
 
 def replay(ctx, path):
     import json
     w = json.load(open(path))
-    sp = spec_inmem(ctx.tier) if "c15_insert_all" in w.get("harness", "") else spec(ctx.tier)
+    hn = w.get("harness", "")
+    sp = spec_inmem(ctx.tier) if "c15_insert_all" in hn else (spec_rio(ctx.tier) if "c15_rio" in hn else (spec_turtle(ctx.tier) if "c15_nt_ser" in hn else spec(ctx.tier)))
     return kprop.replay(ctx, sp, path)
